@@ -5,7 +5,7 @@
 # persistent. Investigation helper; not part of any registered check.
 patch=$1; shift
 wt=/tmp/wt/probe.$$
-git -C /repo worktree add -q --detach "$wt" HEAD || exit 2
+git -C /repo worktree add -q --detach "$wt" "${PROBE_BASE:-HEAD}" || exit 2
 trap 'git -C /repo worktree remove --force "$wt" >/dev/null 2>&1; rm -rf /tmp/probe-verif.$$' EXIT
 git -C "$wt" apply "$(realpath "$patch")" || { echo "PATCH DOES NOT APPLY"; exit 2; }
 mkdir -p /tmp/probe-verif.$$; cp /verif/known_findings.json /tmp/probe-verif.$$/ 2>/dev/null
